@@ -15,6 +15,7 @@ class Gen:
     def __init__(self, case, rng, maxdepth=4):
         self.case, self.rng, self.maxdepth = case, rng, maxdepth
         self.freshonly = False
+        self.force_fn = False      # targeted cases: negative function-valued index into a sparse (scattered) operand
         self.pending = []
         self.argcount = 0
 
@@ -204,7 +205,7 @@ class Gen:
             cands = self.pool(kinds, ndim, pred, need_array)
             if prefer:
                 pref = [n for n in cands if prefer(n)]
-                if pref and rng.random() < .7:
+                if pref and (rng.random() < .7 or self.force_fn):
                     cands = pref
             if cands:
                 return self._choose(cands)
@@ -280,7 +281,7 @@ class Gen:
         ok = lambda x: (pointdep_ok or x.pointindep) and (shape is None or tuple(x.shape) == tuple(shape)) and len(x.shape) <= 2
         # already bounded nodes (element indices, earlier mod results, integer constants)
         cands = [x for x in self.pool('i', (0, 2), ok) if x.bounds and (0 if nonneg else -n) <= x.bounds[0] and x.bounds[1] <= n - 1 and x.f is not None]
-        if cands and rng.random() < .4:
+        if cands and rng.random() < .4 and not self.force_fn:
             return self._choose(cands)
         src = self.pool('i', (0, 2), ok)
         if src and rng.random() < .7 and not self.freshonly:
@@ -294,7 +295,7 @@ class Gen:
         m = self.try_op('mod', str(rng.choice(['ufunc', 'operator'])), [s.id, c.id], {})
         if m is None or m.bounds is None:
             return None
-        if not nonneg and rng.random() < .5:
+        if not nonneg and (rng.random() < .5 or self.force_fn):
             c2 = self.fresh('i', (), values=numpy.array(n), leafkinds=('raw', 'const'))
             m2 = self.try_op('subtract', str(rng.choice(['ufunc', 'operator'])), [m.id, c2.id], {})
             if m2 is not None and m2.bounds is not None:
@@ -366,11 +367,16 @@ def grow(g, opname, hostile=None):
     return None
 
 
-def generate(envname, rng, res, target=None, nops=None, hostile=None):
+def generate(envname, rng, res, target=None, nops=None, hostile=None, force_fn=False):
     """Generate (and build) one valid-mode case.  Returns the Case."""
     case = Case(envname, res)
     g = Gen(case, rng)
     seed_pool(g, case.env, rng)
+    if force_fn:
+        have = {n.spec.get('name') for n in case.nodes.values()}
+        for name in sorted(case.env.leaves):
+            if ('basis' in name or 'ivec' in name) and name not in have and rng.random() < .7:
+                case.add_leaf(dict(leaf='topo', name=name))
     if nops is None:
         nops = int(rng.choice([1, 2, 3, 4], p=[.2, .3, .3, .2]))
     w = op_weights()
@@ -386,6 +392,9 @@ def generate(envname, rng, res, target=None, nops=None, hostile=None):
                                               'interp_int_fp_float_lr': True}[hostile])
         else:
             name = target if (last and target) else str(rng.choice(OPNAMES, p=w))
+            g.force_fn = bool(force_fn and last)
+            if force_fn and not last:
+                name = str(rng.choice(['stack', 'concatenate', 'multiply', 'choose']))
             node = grow(g, name)
         if node == 'violation':
             break
